@@ -19,3 +19,8 @@ package utils
 //@   ensures[C02 an-array-member-is-returned-as-decoded] istype(data[key], []interface{}) ==> same(result, data[key].([]interface{}))
 //@   ensures[C02 anything-else-is-nil] !istype(data[key], []interface{}) ==> result == nil
 //@
+//@ func ParseResourceContent
+//@   pure
+//@   ensures[C02 a-text-member-of-any-content-makes-a-text-resource] istype(contentMap["text"], string) ==> ret2 == contentMap["text"].(string) && ret3
+//@   ensures[C02 a-blob-member-of-any-content-makes-a-blob-resource] !istype(contentMap["text"], string) && istype(contentMap["blob"], string) ==> ret2 == contentMap["blob"].(string) && !ret3
+//@
